@@ -37,3 +37,5 @@ def enforce(props, src, fn, entry=None, replace=(), **kw):
 import jobs_c12  # noqa: E402,F401
 import jobs_c03  # noqa: E402,F401
 import jobs_c09  # noqa: E402,F401
+import jobs_c15  # noqa: E402,F401
+import jobs_c13  # noqa: E402,F401
